@@ -160,12 +160,13 @@ class ShapeRunner:
         return st, objs, gaps, rings
 
     def run(self, fname, fn, args_builder, rings, expect, loose=(), extra_cells=(), label=None,
-            cell_sizes=None, link_off=None, ret_check=None):
+            cell_sizes=None, link_off=None, ret_check=None, call_hook=None):
         """expect(rings) -> dict(rings=[...], self=[cells self-linked], poison=[cells], keep=[cells untouched])"""
         self.configs += 1
         st, objs, gaps, rings = self.build(rings, loose, extra_cells, cell_sizes, link_off)
         link_off = link_off or {}
         it = Interp(self.mod)
+        it.call_hook = call_hook
         args = args_builder(st, objs)
         try:
             rets = it.run_function(fn, st, args)
